@@ -150,6 +150,9 @@ def tl_settings(cfg):
         if cfg.get('tl_' + k) is not None:
             d[k] = list(cfg['tl_' + k])
     d['dhGroups'] = cfg.get('tl_dhGroups') or ['ffdhe2048', 'ffdhe3072']
+    if cfg['tl_min'] >= 4:      # validate() refuses the pre-TLS 1.3 brainpool curves in a TLS 1.3-only configuration
+        from tlslite.handshakesettings import TLS13_PERMITTED_GROUPS
+        d['eccCurves'] = [c for c in d['eccCurves'] if c in TLS13_PERMITTED_GROUPS]
     s = U.mk_settings(d)
     if cfg.get('tickets'):
         s.ticketKeys = [bytearray(b'\x07' * 32)]
@@ -290,7 +293,7 @@ def usable(v, suite, key_auth, key_name=None):
     if key_name == 'rsapss' and kx == 'rsa':
         return False
     if kx is None:
-        return v == 4
+        return v == 4 and key_auth != 'dsa'          # no DSA signatures in TLS 1.3
     if v == 4:
         return False
     if mac in ('sha256', 'sha384', 'aead') and v < 3:
